@@ -390,6 +390,17 @@ func forEachTamper(b *Built, v visitFn) {
 		}
 	}
 	tamperDiff(v, "diff", su.StateDiff)
+	// the class definitions shipped with the block: VerifyClassHashes recomputes every Sierra class hash
+	for i, k := range sortedKeys(b.Classes) {
+		sc, ok := b.Classes[k].(*core.SierraClass)
+		if !ok {
+			continue // Cairo-0 definitions are not verified on acceptance (by design; recorded by classFixtures)
+		}
+		pre := fmt.Sprintf("class.%d.sierra", i)
+		tFelt(v, pre+".programhash", &sc.ProgramHash)
+		tFelt(v, pre+".abihash", &sc.AbiHash)
+		v(pre+".semver", func() { sc.SemanticVersion += "1" })
+	}
 }
 
 // isRehashable: tamperings of the state diff that change the resulting state; after recomputing the state
@@ -427,12 +438,40 @@ func vge(v string, major, minor, patch uint64) bool {
 
 func committedIn(b *Built, name string) bool {
 	ver := b.Block.ProtocolVersion
+	// an L1 handler without nonce (legacy shape): juno returns the declared hash, so its other fields are not
+	// committed in any format; giving it a nonce switches the recomputation on
+	if len(name) > 3 && name[:3] == "tx." {
+		var idx int
+		var rest string
+		fmt.Sscanf(name, "tx.%d.%s", &idx, &rest)
+		if l, ok := b.Block.Transactions[idx].(*core.L1HandlerTransaction); ok && l.Nonce == nil {
+			return rest == "hash" || rest == "nonce"
+		}
+	}
 	if vge(ver, 0, 13, 2) {
 		return true
 	}
 	has := func(p string) bool { return len(name) >= len(p) && name[:len(p)] == p }
+	if b.Pre07 { // number, root, transaction count, transaction commitment, parent; receipts still pair with transactions
+		switch {
+		case has("txs."):
+			return true
+		case has("hdr."):
+			switch name {
+			case "hdr.parent", "hdr.number", "hdr.number-1", "hdr.stateroot", "hdr.txcount", "hdr.version.otherformat", "hdr.version.relabel0134":
+				return true
+			}
+			return false
+		case has("rc."):
+			return tamperKind(name) == "rc.txhash"
+		case has("tx."):
+			// falls through to the signature rule below
+		default:
+			return false
+		}
+	}
 	switch {
-	case has("su.") || has("su+") || has("txs."):
+	case has("su.") || has("su+") || has("txs.") || has("class."):
 		return true
 	case has("hdr."):
 		switch name {
